@@ -30,6 +30,33 @@ IMUT_ALLOW = {
 BENIGN_LEAF = re.compile(r'^alias:<u64 as core::num::ZeroablePrimitive>::NonZeroInner$')
 
 
+_BASE = {}
+
+
+def _dissolved_wrapper_allow(F, adt, field):
+    """the allow-list entry of a reference-tree wrapper struct W (one field) when W no longer exists and `adt.field`, which held a W on
+    the reference tree, now holds W's content directly"""
+    import json
+    import names
+    if 'adts' not in _BASE:
+        try:
+            _BASE['adts'] = json.load(open(names.BASELINE))['unimock']['adts']
+        except Exception:
+            _BASE['adts'] = {}
+    b = _BASE['adts'].get(adt)
+    if not b:
+        return None
+    for _, fs in b['variants']:
+        for fname, fty in fs:
+            if fname != field:
+                continue
+            for (w, wf), allow in IMUT_ALLOW.items():
+                wb = _BASE['adts'].get(w)
+                if wb and w not in F.adts and len(wb['variants']) == 1 and len(wb['variants'][0][1]) == 1 and re.search(r'(?<![A-Za-z0-9_])%s(?![A-Za-z0-9_])' % re.escape(w), fty):
+                    return allow
+    return None
+
+
 def _result_unused(e):
     """the local receiving this call's result is not read anywhere else in the body"""
     t = e.term or {}
@@ -163,6 +190,10 @@ def run(chk, tier):
         # R10.8 'after joining the threads the verdict equals that of the same calls made sequentially': what a worker's clone did reaches the
         # original only through the shared counters and the shared error list - never through a flag that silences it (teardown decision table)
         L.teardown_table(chk, F, 'R10.8', cfg)
+        # R10.9 a call rejected on any thread - through a clone or through the shared `&Unimock` itself - is recorded in the shared error list
+        # before that thread panics: it is the only trace the call leaves (rejected calls bump no counter), so the verdict after `join` needs it
+        from props import c08
+        c08.records_before_panic(chk, F, 'R10.9', cfg, 'nostd' in cfg)
 
         # ---- R10.3 interior mutability census
         seen = set()
@@ -186,6 +217,9 @@ def run(chk, tier):
                         allow = IMUT_ALLOW.get((a, f['name']))
                         if allow is None and via is not None and a in getattr(F, 'transparent', ()):
                             allow = IMUT_ALLOW.get(via)
+                        if allow is None:
+                            # a single-field wrapper of the reference tree that was dissolved into the field that held it
+                            allow = _dissolved_wrapper_allow(F, a, f['name'])
                         if allow is None and f['name'] in write_only and re.search(r'^core::sync::atomic::Atomic\w*$', x):
                             allow = [r'^core::sync::atomic::Atomic\w*$']      # a write-only statistic, see R10.1
                         ok = allow is not None and any(re.search(rx, x) for rx in allow)
